@@ -1004,4 +1004,43 @@ Proof.
     rewrite (Hk d b Hb') in Hh. unfold keeps, ext_link in Hh. rewrite Hn0 in Hh.
     destruct (e_has_ext (n_exts D n0) (dirb d) b); [reflexivity | discriminate].
 Qed.
+Lemma Forall2_impl_ {A B} (P Q : A -> B -> Prop) l l' :
+  (forall a b, P a b -> Q a b) -> Forall2 P l l' -> Forall2 Q l l'.
+Proof. intros H. induction 1; constructor; auto. Qed.
+Lemma Forall2_Forall_l {A B} (P : A -> B -> Prop) (Q : A -> Prop) l l' :
+  Forall2 P l l' -> (forall a b, In b l' -> P a b -> Q a) -> Forall Q l.
+Proof.
+  induction 1 as [|a b l l' Hab H IH]; intro HQ; constructor.
+  - apply (HQ a b); [now left | exact Hab].
+  - apply IH. intros x y Hy. apply HQ. now right.
+Qed.
+
+(* the model's output satisfies the Prop decided by chk.c09.maximal (b) *)
+Theorem recompress_merged_ok (g : graph) censor out paths :
+  rvalid D K stranded g -> compress_graph_paths g censor = Some (out, paths) ->
+  exists g1, restrict D K stranded g (survivors g censor) = Some g1 /\
+             Forall (merged_ok D join K stranded g1 (survivors g censor)) out.
+Proof.
+  intros V H. destruct (recompress_nodes g censor out paths V H) as (g1 & Hg1 & HF).
+  destruct (recompress_partition g censor out paths V H) as (_ & _ & Hcov).
+  exists g1. split; auto. eapply Forall2_Forall_l; [exact HF|].
+  intros n p Hp (lp & seed & rp & n0 & Hp0 & (Hsq & _) & HL & HN & Hs & _).
+  exists p. rewrite Hs. split; [now rewrite Hp0|]. split; auto. split; auto.
+  intros x Hx. apply survivors_spec. apply Hcov. apply in_concat. exists (map fst p). split; auto. now apply in_map.
+Qed.
+
+(* payload: the fold, in the order seed, left path, right path, of the caller's reduction *)
+Theorem payload_fold_ (g : graph) censor out paths :
+  rvalid D K stranded g -> compress_graph_paths g censor = Some (out, paths) ->
+  exists g1, restrict D K stranded g (survivors g censor) = Some g1 /\
+    Forall2 (fun n p => exists lp seed rp sd0 ds, p = assemble lp seed rp /\
+               option_map (n_data D) (nth_error g1 seed) = Some sd0 /\
+               datas D g1 (verts nat lp ++ verts nat rp) = Some ds /\
+               n_data D n = fold_left reduce ds sd0) out paths.
+Proof.
+  intros V H. destruct (recompress_nodes g censor out paths V H) as (g1 & Hg1 & HF).
+  exists g1. split; auto. eapply Forall2_impl_; [|exact HF].
+  intros n p (lp & seed & rp & n0 & Hp0 & (_ & (sd0 & ds & H1 & H2 & H3) & _) & _ & _ & _ & Hd & _).
+  exists lp, seed, rp, sd0, ds. rewrite Hd. auto.
+Qed.
 End Final.
